@@ -504,12 +504,23 @@ class Builder:
                 t = g.choice([('list', r_, None, None), ('map', prim('String'), r_), ('list', ('nullable', r_), None, None),
                               ('map', prim('String'), ('list', r_, None, None))] +
                              ([('nullable', r_)] if self.cfg.nullable_aliases else []))
-            elif earlier and g.p(35):
-                # an alias reached only through another alias, below a nullable and / or a container
-                a_ = g.choice(earlier)
-                t = g.choice([a_, ('list', ('nullable', a_), None, None), ('map', prim('String'), ('nullable', a_)),
-                              ('list', a_, None, None), ('map', prim('String'), ('list', a_, None, None))] +
-                             ([('nullable', a_)] if self.cfg.nullable_aliases else []))
+            elif self.cfg.alias_nesting_bias and ns['imports'] and g.p(20) and \
+                    [x for x in self.visible(ns, ('struct', 'union')) if x[0] != ns['name']]:
+                # an alias of a user type of an imported namespace (the middle link of a chain over three namespaces)
+                n_, d_ = g.choice([x for x in self.visible(ns, ('struct', 'union')) if x[0] != ns['name']])
+                t = ('ref', n_, d_['name'])
+            elif earlier and g.p(55):
+                # an alias reached only through another alias, below a nullable and / or a container;
+                # preferably an alias of another namespace whose own target lives in a third one
+                far = [x for x in earlier if x[1] != ns['name'] and
+                       any(sub[0] in ('ref', 'alias') and sub[1] not in (ns['name'], x[1])
+                           for sub in M.walk_types(self.idx.get(x[1], x[2])['type']))]
+                foreign = [x for x in earlier if x[1] != ns['name']]
+                a_ = g.choice(far if far and g.p(60) else foreign if foreign and g.p(50) else earlier)
+                t = a_ if g.p(45) else g.choice(
+                    [('list', ('nullable', a_), None, None), ('map', prim('String'), ('nullable', a_)),
+                     ('list', a_, None, None), ('map', prim('String'), ('list', a_, None, None))] +
+                    ([('nullable', a_)] if self.cfg.nullable_aliases else []))
             else:
                 t = self.gen_type(ns, depth=g.int(0, 2), allow_nullable=self.cfg.nullable_aliases,
                                   max_rank=self.rank[me])
